@@ -196,6 +196,17 @@ pub fn worker(seed: u64, scen: u64, runs: u64, first_run: u64) {
             if let Some(e) = errs.first() {
                 problems.push(format!("check after prune: {e}"));
             }
+            // "leaves no blob unreferenced by the index": after the prune every pack in storage is listed by some index
+            // file, as a live pack or as one marked for deletion
+            {
+                let st2 = uni.state(0);
+                let view2 = index_view(&rk, &st2)?;
+                for id in st2.ids(FileType::Pack) {
+                    if !view2.packs.contains_key(&id) && !view2.marked.contains_key(&id) {
+                        problems.push(format!("after prune: pack {id} is in storage but no index file lists it (neither as a pack nor as marked for deletion)"));
+                    }
+                }
+            }
             let mut rr = Rng::new(1);
             let m = read_each_snapshot(&env, &mut rr)?;
             match m.get(&*snap2.id).map(|x| &x.1) {
@@ -532,7 +543,7 @@ pub fn run(ctx: &Ctx) -> (Report, Meta) {
     }
     let meta = Meta {
         level: "exploration",
-        rule: "scenario = fixed source tree (many small files / few large files / mixed with duplicates) + fixed chunker settings; every run of a scenario varies ONLY what must not matter: data/tree pack size (one blob per pack ... default), compression, extra_verify, seeded heavy-tailed latency at every backend call, seeded sleeps at the 6 pipeline yield points (hook H4), rayon pool size 1/2/4/16 (worker subprocesses). Per run: backup (tree id, referenced set via independent raw parse, every pack verified against the index, no pack outside the index, no stored blob unreferenced), then second backup + forget + prune(repack-all) + check + full read, then copy into a second repository + full read - all under the same perturbation. Across runs of a scenario: tree ids and referenced sets identical. A worker that stops making progress is classified from /proc (all threads sleeping, zero CPU delta => violation with gdb dump; otherwise inconclusive). distinct_nontrivial = distinct (scenario, pool size); evidence lists distinct storage event orders and pack partitions observed".to_string(),
+        rule: "scenario = fixed source tree (many small files / few large files / mixed with duplicates) + fixed chunker settings; every run of a scenario varies ONLY what must not matter: data/tree pack size (one blob per pack ... default), compression, extra_verify, seeded heavy-tailed latency at every backend call, seeded sleeps at the 6 pipeline yield points (hook H4), rayon pool size 1/2/4/16 (worker subprocesses). Per run: backup (tree id, referenced set via independent raw parse, every pack verified against the index, no pack outside the index, no stored blob unreferenced), then second backup + forget + prune(repack-all, instant or marking) + check + full read + every pack in storage still listed by the index (live or marked), then copy into a second repository + full read - all under the same perturbation. Across runs of a scenario: tree ids and referenced sets identical. A worker that stops making progress is classified from /proc (all threads sleeping, zero CPU delta => violation with gdb dump; otherwise inconclusive). distinct_nontrivial = distinct (scenario, pool size); evidence lists distinct storage event orders and pack partitions observed".to_string(),
         exhaustive: false,
         assumptions: vec![
             "interleavings are sampled by seeded delays, not enumerated; a scenario with fewer than 2 distinct event orders is reported inconclusive".to_string(),
